@@ -3,9 +3,15 @@ package main
 import (
 	"bytes"
 	"fmt"
+	"go/constant"
 	"go/types"
 	"path/filepath"
+	"reflect"
+	"sort"
+	"strings"
 	"text/template"
+
+	"golang.org/x/tools/go/ssa"
 )
 
 // Template skeleton expansion (design P10). The generator's programs are text/template string constants.
@@ -47,11 +53,12 @@ type tplDef struct {
 }
 
 type skeleton struct {
-	name string // e.g. "enum-bitmask"
-	pkg  string
-	file string
-	src  []byte
-	err  error
+	name    string // e.g. "enum-bitmask"
+	pkg     string
+	file    string
+	src     []byte
+	err     error
+	unknown []string // data the generator passes that the curated placeholder model does not know (defaults were invented)
 }
 
 func execTpl(text string, data map[string]interface{}) ([]byte, error) {
@@ -80,9 +87,27 @@ func buildSkeletons(c *Ctx) ([]skeleton, error) {
 		Fields: []*tplField{{[]string{"f"}, "A uint32"}, {nil, "B [4]uint8"}, {nil, "S string `mavlen:\"8\"`"}, {nil, "E uint8 `mavext:\"true\"`"}}}
 	msgLink := &tplMsgData{DefName: "minimal", OrigName: "HEARTBEAT", Name: "Heartbeat", ID: 0}
 	var out []skeleton
+	shapes := tplDataShapes(c)
 	add := func(name, pkg, file, text string, data map[string]interface{}) {
-		src, err := execTpl(text, data)
-		out = append(out, skeleton{name: name, pkg: pkg, file: file, src: src, err: err})
+		// the curated placeholder values are completed with type-derived defaults for every datum the generator
+		// passes to this template that the curated model does not know (a field or map key added later)
+		fn := map[string]string{"enum": "writeEnum", "mess": "writeMessage", "dial": "writeDialect"}[name[:4]]
+		gen := map[string]interface{}{}
+		for k, v := range data {
+			gen[k] = toGeneric(reflect.ValueOf(v))
+		}
+		var unknown []string
+		for k, t := range shapes[fn] {
+			if cur, ok := gen[k]; ok {
+				gen[k] = fillFromType(cur, t, 0, k, &unknown)
+			} else {
+				gen[k] = defaultFor(t, 0)
+				unknown = append(unknown, k)
+			}
+		}
+		sort.Strings(unknown)
+		src, err := execTpl(text, gen)
+		out = append(out, skeleton{name: name, pkg: pkg, file: file, src: src, err: err, unknown: unknown})
 	}
 	add("enum-plain", "zzvplain", "enum_zzv_plain.go", te, map[string]interface{}{"PkgName": "zzvplain", "Enum": plain, "Link": false})
 	add("enum-bitmask", "zzvmask", "enum_zzv_mask.go", te, map[string]interface{}{"PkgName": "zzvmask", "Enum": mask, "Link": false})
@@ -164,6 +189,23 @@ func ruleSkeletons(c *Ctx, wellFormedRule, enumRule string) {
 	}
 	if enumRule != "" {
 		for _, e := range []struct{ pk, typ, suffix string }{{"pkg/dialects/zzvplain", "ZZV_PLAIN", "a"}, {"pkg/dialects/zzvmask", "ZZV_MASK", "b"}} {
+			// a template that consumes data the curated model does not know was instantiated with invented defaults
+			// (false / 0 / ""): its skeleton is type-checked (R18.5) but its behaviour says nothing about the real
+			// generator output, so it is not evaluated — neither as a pass nor as a violation
+			var unk []string
+			for _, s := range sk {
+				if "pkg/dialects/"+s.pkg == e.pk {
+					unk = s.unknown
+				}
+			}
+			if len(unk) > 0 {
+				msg := "not evaluated: the template is fed data unknown to the placeholder model (" + strings.Join(unk, ", ") + "); defaults were used for type-checking only"
+				r.Notes = append(r.Notes, enumRule+" skeleton "+e.typ+" "+msg)
+				r.OK(enumRule+e.suffix, "skeleton "+e.typ+" shape", "pkg/conversion/conversion.go", msg)
+				r.OK(enumRule+e.suffix, "skeleton "+e.typ+" tables", "pkg/conversion/conversion.go", msg)
+				r.OK(enumRule, "skeleton "+e.typ+" coverage", "pkg/conversion/conversion.go", msg)
+				continue
+			}
 			p := sc.Pkgs[e.pk]
 			if p == nil {
 				r.Broken(enumRule, "skeleton "+e.typ, "package not loaded")
@@ -178,3 +220,159 @@ func ruleSkeletons(c *Ctx, wellFormedRule, enumRule string) {
 		}
 	}
 }
+
+// tplDataShapes: for each generator function that executes a template (writeEnum, writeMessage, writeDialect) the
+// keys of the map it passes to Execute and the static types of the values (read from the SSA of the function).
+func tplDataShapes(c *Ctx) map[string]map[string]types.Type {
+	out := map[string]map[string]types.Type{}
+	for _, name := range []string{"writeEnum", "writeMessage", "writeDialect"} {
+		fn := c.FnOpt("pkg/conversion", name)
+		if fn == nil {
+			continue
+		}
+		m := map[string]types.Type{}
+		for _, in := range allInstrs(fn) {
+			mu, ok := in.(*ssa.MapUpdate)
+			if !ok {
+				continue
+			}
+			k, isK := mu.Key.(*ssa.Const)
+			if !isK || k.Value == nil || k.Value.Kind() != constant.String {
+				continue
+			}
+			v := mu.Value
+			if mi, isMI := v.(*ssa.MakeInterface); isMI {
+				v = mi.X
+			}
+			m[constant.StringVal(k.Value)] = v.Type()
+		}
+		out[name] = m
+	}
+	return out
+}
+
+// toGeneric converts curated placeholder values into maps / slices so that unknown fields can be added.
+func toGeneric(v reflect.Value) interface{} {
+	if !v.IsValid() {
+		return nil
+	}
+	switch v.Kind() {
+	case reflect.Ptr, reflect.Interface:
+		if v.IsNil() {
+			return nil
+		}
+		return toGeneric(v.Elem())
+	case reflect.Struct:
+		m := map[string]interface{}{}
+		for i := 0; i < v.NumField(); i++ {
+			m[v.Type().Field(i).Name] = toGeneric(v.Field(i))
+		}
+		return m
+	case reflect.Slice:
+		if v.Type().Elem().Kind() == reflect.String {
+			return v.Interface()
+		}
+		out := make([]interface{}, v.Len())
+		for i := 0; i < v.Len(); i++ {
+			out[i] = toGeneric(v.Index(i))
+		}
+		return out
+	case reflect.Map:
+		out := map[string]interface{}{}
+		for _, k := range v.MapKeys() {
+			out[k.String()] = toGeneric(v.MapIndex(k))
+		}
+		return out
+	}
+	return v.Interface()
+}
+
+// defaultFor: a neutral placeholder of the given static type (false, 0, "zzv", one-element doc slices, empty
+// collections, structs as maps of defaults).
+func defaultFor(t types.Type, depth int) interface{} {
+	if depth > 4 {
+		return nil
+	}
+	switch u := t.Underlying().(type) {
+	case *types.Basic:
+		switch {
+		case u.Info()&types.IsBoolean != 0:
+			return false
+		case u.Info()&types.IsString != 0:
+			return "zzv"
+		case u.Info()&types.IsUnsigned != 0:
+			return uint64(0)
+		case u.Info()&types.IsInteger != 0:
+			return 0
+		case u.Info()&types.IsFloat != 0:
+			return 0.0
+		}
+	case *types.Pointer:
+		return defaultFor(u.Elem(), depth+1)
+	case *types.Struct:
+		m := map[string]interface{}{}
+		for i := 0; i < u.NumFields(); i++ {
+			m[u.Field(i).Name()] = defaultFor(u.Field(i).Type(), depth+1)
+		}
+		return m
+	case *types.Slice:
+		if b, ok := u.Elem().Underlying().(*types.Basic); ok && b.Info()&types.IsString != 0 {
+			return []string{}
+		}
+		return []interface{}{}
+	case *types.Map:
+		return map[string]interface{}{}
+	}
+	return nil
+}
+
+// fillFromType adds, to a curated generic value, defaults for the struct fields of its static type that it lacks.
+func fillFromType(val interface{}, t types.Type, depth int, path string, unknown *[]string) interface{} {
+	if depth > 6 || val == nil {
+		return val
+	}
+	switch u := t.Underlying().(type) {
+	case *types.Pointer:
+		return fillFromType(val, u.Elem(), depth+1, path, unknown)
+	case *types.Struct:
+		m, ok := val.(map[string]interface{})
+		if !ok {
+			return val
+		}
+		for i := 0; i < u.NumFields(); i++ {
+			f := u.Field(i)
+			if cur, has := m[f.Name()]; has {
+				m[f.Name()] = fillFromType(cur, f.Type(), depth+1, path+"."+f.Name(), unknown)
+			} else {
+				m[f.Name()] = defaultFor(f.Type(), depth+1)
+				seen := false
+				for _, u0 := range *unknown {
+					if u0 == path+"."+f.Name() {
+						seen = true
+					}
+				}
+				if !seen {
+					*unknown = append(*unknown, path+"."+f.Name())
+				}
+			}
+		}
+		return m
+	case *types.Slice:
+		if sl, ok := val.([]interface{}); ok {
+			for i := range sl {
+				sl[i] = fillFromType(sl[i], u.Elem(), depth+1, path, unknown)
+			}
+		}
+		return val
+	case *types.Map:
+		if mm, ok := val.(map[string]interface{}); ok {
+			for k := range mm {
+				mm[k] = fillFromType(mm[k], u.Elem(), depth+1, path, unknown)
+			}
+		}
+		return val
+	}
+	return val
+}
+
+var _ = strings.TrimSpace
